@@ -184,10 +184,7 @@ pub fn child_main() -> ! {
                 }
             }
             Op::EmitRef(permille) => {
-                let mut n = reference.len() * (permille.min(1000) as usize) / 1000;
-                while n > 0 && !reference.is_char_boundary(n) {
-                    n -= 1;
-                }
+                let n = crate::procsim::emit_ref_len(&reference, permille);
                 outbuf.extend_from_slice(&reference.as_bytes()[..n]);
             }
             Op::EmitGarbage(n) => outbuf.extend(b"%% not rust @@ ".iter().cycle().take(n)),
@@ -489,6 +486,8 @@ pub fn scenarios(tier: Tier) -> Vec<Scenario> {
         ("exit1_after_reading", SpawnPlan::Ok, vec![Op::ReadToEof, Op::Exit(1)]),
         ("exit1_after_formatting", SpawnPlan::Ok, vec![Op::ReadToEof, Op::Format, Op::Flush, Op::Exit(1)]),
         ("exit101_after_prefix", SpawnPlan::Ok, vec![Op::ReadToEof, Op::EmitRef(500), Op::Flush, Op::Exit(101)]),
+        ("exit1_after_whole_items", SpawnPlan::Ok, vec![Op::ReadToEof, Op::EmitRef(1400), Op::Flush, Op::Exit(1)]),
+        ("sigkill_after_whole_items", SpawnPlan::Ok, vec![Op::ReadToEof, Op::EmitRef(1200), Op::Flush, Op::Kill(libc::SIGKILL)]),
         ("exit1_without_reading", SpawnPlan::Ok, vec![Op::Exit(1)]),
         ("exit127_without_reading", SpawnPlan::Ok, vec![Op::Exit(127)]),
         ("close_stdin_then_exit2", SpawnPlan::Ok, vec![Op::CloseStdin, Op::Delay(1000), Op::Exit(2)]),
